@@ -481,7 +481,7 @@ fn valid_corpus() -> Vec<String> {
     .iter()
     .map(|s| s.to_string())
     .collect();
-    let g = gen::Gen::new(gen::Opts { depth: 1, max_programs: u64::MAX, multi_template: false, loop_controls: true });
+    let g = gen::Gen::new(gen::Opts { depth: 1, max_programs: u64::MAX, multi_template: false, loop_controls: true, extra_leaves: false });
     let mut n = 0;
     while n < g.size() {
         v.push(g.program(n).source());
